@@ -30,10 +30,26 @@ fn run_case(case: &str) -> String
 	let mut rng = Rng::new(vseed);
 	let mut uniq = 0u32;
 	let (r, nbiased) = render_full(&i, target, &mut rng, true, &mut uniq, bias, arity);
+	// optional trailing "% <hex identifier>": the identifier operand (CPS flag, barrier option, special register name) is
+	// replaced by another identifier; `ovr=same` when it is the documented name in another letter case, `ovr=diff` otherwise
+	let mut r = r;
+	let mut ovr = "";
+	if t.len() > 4 + used + 1 && t[4 + used] == "%"
+	{
+		let new = String::from_utf8_lossy(&parse_hex_bytes(t[4 + used + 1])).into_owned();
+		let body = r.stmt.trim_end_matches(';').to_string();
+		let sp = body.find(' ').unwrap_or(body.len());
+		let (mn, ops) = body.split_at(sp);
+		let mut parts: Vec<String> = ops.split(',').map(|x| x.trim().to_string()).collect();
+		let k = match i { Instruction::Mrs{..} => parts.len() - 1, _ => 0 };
+		ovr = if parts[k].eq_ignore_ascii_case(&new) { "same" } else { "diff" };
+		parts[k] = new;
+		r.stmt = format!("{} {};", mn, parts.join(", "));
+	}
 	let src = format!("{}.addr 0x{:X};\n{}\n{}", r.pre, addr, r.stmt, r.post);
 	let res = run_pipeline(src.as_bytes(), "c04.asm");
 	let bytes = match res.regions.iter().find(|(a, _)| *a == addr) { Some((_, d)) => hex_bytes(d), None => "-".into() };
-	format!("src={} | asm={} bytes={} diags={} biased={}", hex_bytes(src.as_bytes()), res.fmt_status(), bytes, res.fmt_diags(), nbiased)
+	format!("src={} | asm={} bytes={} diags={} biased={}{}", hex_bytes(src.as_bytes()), res.fmt_status(), bytes, res.fmt_diags(), nbiased, if ovr.is_empty() { String::new() } else { format!(" ovr={}", ovr) })
 }
 
 fn near(rng: &mut Rng, centers: &[i64]) -> i64 { *rng.pick(centers) + rng.range(-3, 3) }
@@ -96,9 +112,9 @@ fn main()
 	};
 	let mut sh = Shard{k: 0, shard, n: nshards};
 	let mut rng = Rng::new(seed);
-	let addrs: [u32; 17] = [0, 2, 0x10000000, 0x10000001, 0x10000002, 0x10000003, 0x20000000, 0x20000001, 0x20000002, 0x20000003,
-		0x7FFFFFFE, 0x80000000, 0xFFFFFFF0, 0xFFFFFFF4, 0xFFFFFFF8, 0xFFFFFFFA, 0xFFFFFFFC];
-	let mut emit_f = |addr: u32, target: Option<i64>, i: &Instruction, rng: &mut Rng, out: &mut Out, bias: i64, arity: i64|
+	let addrs: [u32; 21] = [0, 2, 0x10000000, 0x10000001, 0x10000002, 0x10000003, 0x20000000, 0x20000001, 0x20000002, 0x20000003,
+		0x7FFFFFF0, 0x7FFFFFF8, 0x7FFFFFFE, 0x80000000, 0x80000010, 0x80FFFFF0, 0xFFFFFFF0, 0xFFFFFFF4, 0xFFFFFFF8, 0xFFFFFFFA, 0xFFFFFFFC];
+	let mut emit_x = |addr: u32, target: Option<i64>, i: &Instruction, rng: &mut Rng, out: &mut Out, bias: i64, arity: i64, extra: &str|
 	{
 		let vseed = rng.next();
 		if sh.mine()
@@ -106,11 +122,12 @@ fn main()
 			let mut c = format!("A {:x} {:x} {} {}", addr, vseed, match target { Some(t) => hex_i64(t), None => "-".into() }, fmt_instr(i));
 			if bias != 0 { c.push_str(&format!(" ! {}", hex_i64(bias))); }
 			if arity != 0 { c.push_str(&format!(" # {}", hex_i64(arity))); }
+			c.push_str(extra);
 			let r = run_case(&c); out.line(&c, &r);
 		}
 	};
-	macro_rules! emit { ($a:expr, $t:expr, $i:expr, $r:expr, $o:expr) => { emit_f($a, $t, $i, $r, $o, 0, 0) } }
-	macro_rules! emit_b { ($a:expr, $t:expr, $i:expr, $r:expr, $o:expr, $b:expr) => { emit_f($a, $t, $i, $r, $o, $b, 0) } }
+	macro_rules! emit { ($a:expr, $t:expr, $i:expr, $r:expr, $o:expr) => { emit_x($a, $t, $i, $r, $o, 0, 0, "") } }
+	macro_rules! emit_b { ($a:expr, $t:expr, $i:expr, $r:expr, $o:expr, $b:expr) => { emit_x($a, $t, $i, $r, $o, $b, 0, "") } }
 	// (0) operand-rule boundaries: every instruction form that has an immediate field, with the registers at the edges of
 	// each register class and the immediates at, just inside and just outside every field's range and scaling
 	{
@@ -153,7 +170,7 @@ fn main()
 		{
 			if ar == -1 && matches!(i, Instruction::Nop | Instruction::Sev | Instruction::Wfe | Instruction::Wfi | Instruction::Yield) { continue; }
 			let addr = *rng.pick(&addrs);
-			emit_f(addr, Some(addr as i64 + 4), i, &mut rng, &mut out, 0, ar);
+			emit_x(addr, Some(addr as i64 + 4), i, &mut rng, &mut out, 0, ar, "");
 		}}
 		while k < n
 		{
@@ -170,7 +187,7 @@ fn main()
 					Instruction::Ldr{addr: Register::PC, off: ImmReg::Immediate(off), ..} => Some((addr & !3) as i64 + 4 + off as i64),
 					_ => None,
 				};
-				emit_f(addr, target, &i, &mut rng, &mut out, 0, ar);
+				emit_x(addr, target, &i, &mut rng, &mut out, 0, ar, "");
 				k += 1;
 			}
 		}
@@ -192,6 +209,28 @@ fn main()
 			emit!(addr, target, &i, &mut rng, &mut out);
 		}
 	}}
+	// (0c) near-miss identifiers where the syntax wants one particular name: CPS flag, barrier option, special register
+	{
+		use Instruction::*;
+		let mut kinds: Vec<(Instruction, String)> = vec![(Cps{enable: true}, "i".into()), (Cps{enable: false}, "i".into()), (Dmb, "SY".into()), (Dsb, "SY".into()), (Isb, "SY".into())];
+		let sysnames: Vec<String> = SYSREGS.iter().map(|&n| format!("{:?}", sys(n))).collect();
+		for &n in SYSREGS.iter() { kinds.push((Mrs{dst: reg(1), src: sys(n)}, format!("{:?}", sys(n)))); kinds.push((Msr{dst: sys(n), src: reg(2)}, format!("{:?}", sys(n)))); }
+		for (i, name) in kinds.iter()
+		{
+			let mut cands: Vec<String> = vec![name.to_lowercase(), name.to_uppercase()];
+			for suf in ["S", "_", "T", "0", "Y", "s"] { cands.push(format!("{}{}", name, suf)); }
+			if name.len() > 1 { cands.push(name[..name.len() - 1].to_string()); cands.push(name[1..].to_string()); }
+			cands.push(format!("{}{}", &name[..1], name)); cands.push(format!("X{}", name)); cands.push("R0".into()); cands.push("q".into());
+			for c in cands
+			{
+				// another valid name of the same kind is not a near miss
+				let valid_other = !c.eq_ignore_ascii_case(name) && (sysnames.iter().any(|v| v.eq_ignore_ascii_case(&c)) && matches!(i, Mrs{..} | Msr{..}));
+				if valid_other { continue; }
+				let addr = *rng.pick(&addrs);
+				emit_x(addr, None, i, &mut rng, &mut out, 0, 0, &format!(" % {}", hex_bytes(c.as_bytes())));
+			}
+		}
+	}
 	// (2) PC-relative boundaries: every range edge, misalignment, and targets outside the u32 space
 	for &addr in &addrs
 	{
@@ -203,6 +242,12 @@ fn main()
 		{
 			emit!(addr, Some(addr as i64 + 4 + off), &Instruction::Bl{off: 0}, &mut rng, &mut out);
 		}
+		// every single offset bit (the BL encoding scatters S, J1, J2, imm10, imm11), both signs, and mid-range offsets
+		for k in 1..24 { for sgn in [1i64, -1] { for d in [0i64, 2] {
+			emit!(addr, Some(addr as i64 + 4 + sgn * ((1i64 << k) + d)), &Instruction::Bl{off: 0}, &mut rng, &mut out);
+		}}}
+		for _ in 0..6 { let off = 2 * rng.range(-(1 << 23), (1 << 23) - 1); emit!(addr, Some(addr as i64 + 4 + off), &Instruction::Bl{off: 0}, &mut rng, &mut out); }
+		for k in 1..11 { for sgn in [1i64, -1] { emit!(addr, Some(addr as i64 + 4 + sgn * (1i64 << k)), &Instruction::B{cond: cond(14), off: 0}, &mut rng, &mut out); } }
 		for off in [-4i64, -1, 0, 1, 2, 3, 4, 1016, 1019, 1020, 1021, 1024, 65536, 65540]
 		{
 			for d in [0u8, 7, 8] {
